@@ -43,6 +43,8 @@ class Clause:
     def applies(self, outcome):
         if self.when == 'any':
             return True
+        if self.when == 'normal':
+            return outcome.kind in ('return', 'yield')
         if self.when == outcome.kind:
             return True
         if self.when.startswith('raise:') and outcome.kind == 'raise':
